@@ -3,14 +3,19 @@ C15 — the generator compiles any supported-dialect schema into a conforming co
 
 The universal half of this property is carried by C01/C02/C12, whose theorems quantify over EVERY schema
 satisfying the decidable predicate `WF` (not only the two shipped sets): they are restated here with the
-schema as the quantified object. What ties the text the generator EMITS for such a schema to the
-interpreter these theorems speak about is execution (harness/c15.py: random schemas compiled by the real
-generator and run against the driver); there is no formal semantics of the emitted Python.
+schema as the quantified object. The text the generator EMITS for the `serialize` / `size` bodies of a
+struct class is the rendering of an abstract program (`Model/Codec/EmissionSem.lean`,
+`serialize_text_is_render`, `size_text_is_render`), and running that program on an object computes
+exactly what the interpreter computes (`emitted_serialize_eq_encode`, `emitted_size_eq_size`). For
+`deserialize` the tie is still execution (harness/c15.py: random schemas compiled by the real generator
+and run against the driver).
 "Generating twice gives identical text" is, at the modelled granularity, `generate_deterministic`.
 -/
 import SymbolVerif.Properties.C01
 import SymbolVerif.Properties.C02
 import SymbolVerif.Properties.C03
+import SymbolVerif.Proofs.Codec.EmissionClass
+import SymbolVerif.Proofs.Codec.EmissionDesRender
 namespace SymbolVerif.C15
 open SymbolVerif SymbolVerif.Codec SymbolVerif.Bytes
 
@@ -58,5 +63,156 @@ def bag : Val := .struct "Bag" [("items", .arr [
 example : WF tiny = true := by decide +kernel
 example : adm tiny (fun _ b => b) "Bag" bag = true := by decide +kernel
 example : (match encode tiny (fun _ b => b) "Bag" bag with | .ok b => b.length | .error _ => 0) = 19 := by decide +kernel
+
+/-! ### the emitted `serialize` / `size` programs
+
+`WFG` (EmissionSem.lean) collects what the generator needs of a schema for its text to be meaningful
+Python; each clause is a case in which the emitted text raises or departs from the layout semantics
+(see the findings in `Proofs/Codec/STATUS.md`). `pyObjOk` restricts the object to the interpreter's
+modelled domain (arrays of at most `maxCount` elements) and to objects on which `.size` is not taken of
+`None` (where Python raises and the interpreter, for members of scalar type, does not). Neither
+hypothesis mentions admissibility: the two computations agree on every such object, errors included. -/
+
+/-- the lines of `generate_serialize_fields` are the rendering of the abstract program -/
+theorem serialize_text_is_render (S : Schema) (d : StructDef) :
+    serializeFieldLines S d = renderSer (emitSerialize S d) ∧
+    serializeBody S d =
+      ["buffer = bytearray()"] ++ (if d.base.isSome then ["super()._serialize(buffer)"] else []) ++
+      (if d.abstract then ["self._serialize(buffer)"] else renderSer (emitSerialize S d)) ++ ["return buffer"] :=
+  ⟨(renderSer_emitSerialize S d).symm, serializeBody_eq S d⟩
+
+/-- the body of the `size` property is the rendering of the abstract program -/
+theorem size_text_is_render (S : Schema) (d : StructDef) :
+    sizeBody S d =
+      ["size = 0"] ++ (if d.base.isSome then ["size += super().size"] else []) ++
+      renderSize (emitSize S d) ++ ["return size"] :=
+  sizeBody_eq S d
+
+/-- the body of `deserialize` / `_deserialize` is a fixed prologue and epilogue around the rendering of the
+    abstract member program `emitDeserialize S d` (EmissionDes.lean: one statement group per member, the temporary
+    buffer for members laid out before their discriminant) -/
+theorem deserialize_text_is_render (S : Schema) (ty : String) (d : StructDef) :
+    deserializeBody S ty d =
+      ((if d.abstract then (if (ownFields d).any (·.name == "size") then [] else ["size_ = len(buffer)"])
+        else ["buffer = memoryview(payload)", "instance = " ++ ty ++ "()"]) ++
+       (match d.base with
+        | some b => ["(window_start, window_end) = " ++ b ++ "._deserialize(buffer, instance)", "buffer = buffer[window_start:window_end]"]
+        | none => [])) ++
+      renderItems (emitDeserialize S d) ++ ["", "# pylint: disable=protected-access"] ++
+      (((ownFields d).filter fun f => f.kind.carries).map fun f => "instance._" ++ printerName f.name ++ " = " ++ printerName f.name) ++
+      [if d.abstract then "return (size_ - len(buffer), size_)" else "return instance"] :=
+  deserializeBody_eq S ty d
+
+/-- running the emitted `size` property (the base class's statements, then the class's own) on an object
+    computes the interpreter's size of the object -/
+theorem emitted_size_eq_size (S : Schema) (T : String → Bytes → Bytes) (rec : Rec) (hwf : WF S = true)
+    (hwg : WFG S = true) (ty : String) (d : StructDef) (hfind : S.find ty = some (.struct d))
+    (vs : List (String × Val)) (hshape : shapeOk d vs = true) (hobj : pyObjOk rec d vs = true) :
+    emittedSize S T rec d vs = structSize rec d vs :=
+  emittedSize_eq hwf hwg hfind hshape hobj
+
+/-- running the emitted `serialize` (`super()._serialize(buffer)`, then the class's own statements, with
+    `self.size` the emitted `size` property) computes the interpreter's encoding of the object -/
+theorem emitted_serialize_eq_encode (S : Schema) (T : String → Bytes → Bytes) (rec : Rec) (hwf : WF S = true)
+    (hwg : WFG S = true) (ty : String) (d : StructDef) (hfind : S.find ty = some (.struct d))
+    (vs : List (String × Val)) (hshape : shapeOk d vs = true) (hobj : pyObjOk rec d vs = true) :
+    emittedSerialize S T rec d vs = encStruct S T rec d vs :=
+  emittedSerialize_eq hwf hwg hfind hshape hobj
+
+/-- hence, for an admissible object that encodes: the emitted `serialize` returns the encoding, the emitted
+    `size` its length, and `decode` reads the object back from what the emitted `serialize` returns -/
+theorem emitted_serialize_roundtrip (S : Schema) (T : String → Bytes → Bytes) (hwf : WF S = true) (hwg : WFG S = true)
+    (ty : String) (d : StructDef) (hfind : S.find ty = some (.struct d)) (hconc : d.abstract = false)
+    (vs : List (String × Val)) (b : Bytes) (n : Nat)
+    (henc : (recN S T (n + 1)).enc ty (.struct ty vs) = .ok b) (hadm : admN S T (n + 1) ty (.struct ty vs) = true)
+    (hobj : pyObjOk (recN S T n) d vs = true) :
+    emittedSerialize S T (recN S T n) d vs = .ok b ∧ emittedSize S T (recN S T n) d vs = .ok b.length ∧
+      (recN S T (n + 1)).dec ty b = .ok (.struct ty vs) := by
+  have henc' : encTypeStep S T (recN S T n) ty (.struct ty vs) = .ok b := henc
+  unfold encTypeStep at henc'
+  simp only [hfind, hconc, Bool.false_eq_true, if_false, beq_self_eq_true, Bool.true_and] at henc'
+  split at henc'
+  · rename_i hshape
+    have hrt := C01.roundtrip (T := T) hwf henc hadm
+    have hsz : typeSizeStep S (recN S T n) ty (.struct ty vs) = .ok b.length := hrt.1
+    unfold typeSizeStep at hsz
+    simp only [hfind, hconc, Bool.false_eq_true, if_false, beq_self_eq_true, if_true] at hsz
+    refine ⟨?_, ?_, ?_⟩
+    · rw [emittedSerialize_eq hwf hwg hfind hshape hobj]; exact henc'
+    · rw [emittedSize_eq hwf hwg hfind hshape hobj]; exact hsz
+    · have := hrt.2 []
+      rwa [List.append_nil] at this
+  · cases henc'
+
+theorem symbol_wfg : WFG Generated.Symbol.schema = true := by decide +kernel
+
+theorem nem_wfg : WFG Generated.Nem.schema = true := by decide +kernel
+
+/-! non-vacuity on shipped types: the emitted programs run on concrete objects (conditions, counted / sized /
+    fill arrays, base class, size member) and agree with the interpreter -/
+
+def sameBytes : R Bytes → R Bytes → Bool
+  | .ok a, .ok b => a == b
+  | _, _ => false
+
+def sameNat : R Nat → R Nat → Bool
+  | .ok a, .ok b => a == b
+  | _, _ => false
+
+/-- the hypotheses of the two theorems hold for the object, and both sides succeed with equal results -/
+def emittedAgrees (S : Schema) (v : Val) : Bool :=
+  match v with
+  | .struct ty vs =>
+    (match S.find ty with
+      | some (.struct d) =>
+        let r := recN S C01.Examples.idT (defaultFuel S)
+        shapeOk d vs && pyObjOk r d vs &&
+          sameBytes (emittedSerialize S C01.Examples.idT r d vs) (encStruct S C01.Examples.idT r d vs) &&
+          sameNat (emittedSize S C01.Examples.idT r d vs) (structSize r d vs)
+      | _ => false)
+  | _ => false
+
+example : emittedAgrees Generated.Symbol.schema C01.Examples.aggregate = true := by decide +kernel
+example : emittedAgrees Generated.Symbol.schema C01.Examples.transfer = true := by decide +kernel
+example : emittedAgrees Generated.Symbol.schema (C01.Examples.nsReg 1) = true := by decide +kernel
+example : emittedAgrees Generated.Nem.schema (C01.Examples.nemMultisig C01.Examples.nemMsg) = true := by decide +kernel
+example : emittedAgrees Generated.Nem.schema (C01.Examples.nemNsReg .none) = true := by decide +kernel
+example : emittedAgrees Generated.Nem.schema (C01.Examples.nemNsReg (.bytes [98, 99])) = true := by decide +kernel
+
+/-- the text of a shipped body with a condition and arrays, as rendered from the syntax -/
+example : renderSer (emitSerialize Generated.Nem.schema
+    (match Generated.Nem.schema.find "TransferTransactionV2" with | some (.struct d) => d | _ => default)) =
+  ["buffer += self._recipient_address_size.to_bytes(4, byteorder='little', signed=False)",
+   "buffer += self._recipient_address.serialize()",
+   "buffer += self._amount.serialize()",
+   "buffer += self.message_envelope_size_computed.to_bytes(4, byteorder='little', signed=False)",
+   "if 0 != self.message_envelope_size_computed:",
+   "\tbuffer += self._message.serialize()",
+   "buffer += len(self._mosaics).to_bytes(4, byteorder='little', signed=False)  # mosaics_count",
+   "buffer += ArrayHelpers.write_array(self._mosaics)"] := by decide +kernel
+
+/-! a former finding of the generator, repaired in /repo (commit "fix: generated conditions refer to the condition
+    member by its generated name"): the discriminant of a condition used to be written unmangled, `if 1 == self.type:`
+    (and `if 1 == type:` in `deserialize`, comparing with the *builtin* `type` and silently dropping the member), while
+    the member `type` is stored and exposed as `type_`. The emission model follows the repaired generator; on the
+    witness schema the emitted program now is the interpreter. -/
+def taggedSchema : Schema := [
+  ("Amount", .int 2 false),
+  ("Tagged", .struct { fields := [
+    { name := "type", kind := .int 1 false },
+    { name := "value", kind := .ref "Amount" none, cond := some { field := "type", op := .eq, value := 1, viaSelf := false } },
+    { name := "other", kind := .int 1 false }] })]
+
+def taggedObject : List (String × Val) := [("type", .int 1), ("value", .int 5), ("other", .int 9)]
+
+example :
+    (match taggedSchema.find "Tagged" with
+      | some (.struct d) =>
+        let r := recN taggedSchema C01.Examples.idT 3
+        WF taggedSchema && WFG taggedSchema && shapeOk d taggedObject && pyObjOk r d taggedObject &&
+        sameBytes (encStruct taggedSchema C01.Examples.idT r d taggedObject) (.ok [1, 5, 0, 9]) &&
+        sameBytes (emittedSerialize taggedSchema C01.Examples.idT r d taggedObject) (.ok [1, 5, 0, 9]) &&
+        (renderSer (emitSerialize taggedSchema d)).contains "if 1 == self.type_:"
+      | _ => false) = true := by decide +kernel
 
 end SymbolVerif.C15
